@@ -236,6 +236,11 @@ func protoShapes() []*fuzzInput {
 	add("where-deep-brackets", wire.RESP, string(wire.EncodeRESP("SCAN", "fleet", "WHEREIN", "f", "1", strings.Repeat("[", 1000000), "IDS")))
 	add("set-string-deep-brackets", wire.RESP, string(wire.EncodeRESP("SET", "deepk", "s", "STRING", strings.Repeat("[", 1000000))))
 	add("jset-deep-brackets", wire.RESP, string(wire.EncodeRESP("JSET", "deepk", "j", "p", strings.Repeat("[", 1000000), "RAW")))
+	// the largest SPARSE values the parser accepts
+	for _, sp := range []string{"12", "16"} {
+		add("within-sparse-"+sp, wire.RESP, string(wire.EncodeRESP("WITHIN", "fleet", "SPARSE", sp, "IDS", "BOUNDS", "-90", "-180", "90", "180")))
+		add("nearby-sparse-"+sp, wire.RESP, string(wire.EncodeRESP("TIMEOUT", "2", "INTERSECTS", "fleet", "SPARSE", sp, "COUNT", "BOUNDS", "-90", "-180", "90", "180")))
+	}
 	add("known-line-within-line", wire.RESP, string(wire.EncodeRESP("TEST", "OBJECT", `{"type":"LineString","coordinates":[[0,0],[1,0],[1,1]]}`, "WITHIN", "OBJECT", `{"type":"LineString","coordinates":[[0,0],[1,0],[2,0]]}`)))
 	add("known-jset-balloon", wire.RESP, "*5\r\n$4\r\nJSET\r\n$7\r\nballoon\r\n$3\r\ndoc\r\n$9\r\n999999999\r\n$1\r\n1\r\n")
 	add("http-no-path", wire.HTTPGet, "GET  HTTP/1.1\r\n\r\n")
